@@ -23,6 +23,7 @@ RULE = ("(a) create_from_info(get_info(M)) for DictArithmetic and the ten model 
         "C02-C11, C14-C16 and C18 run underneath. Non-trivial = round trip / aliasing case on a model with >= 2 terms, or a "
         "monitored call that received at least one container argument; distinct = digest of the case"
         ' Also: falsy names, a new label added to the rebuilt model, recorded constraints compared with their polynomial types and by is_solution_valid agreement on random assignments, copy.deepcopy compared in full, no-op normalisation must still return a new object, retained-argument probes (the polynomial / operand / info dict a model was built from is edited afterwards), plain dicts with explicit zero entries handed to every dict-taking entry point (item order compared).')
+RULE += " Rounds 9-10: classmethods (remove_ancilla_from_solution) under the immutability monitor, zero-entry dicts through anneal_temperature_range and default-schedule anneals."
 TIERS = {"quick": {"shards": 8, "cases": 350}, "thorough": {"shards": 16, "cases": 12000}}
 FLOOR_BASE = {"quick": 220, "thorough": 6000}    # case counts the floors below were calibrated for; the launcher scales them
 FLOOR_FIXED = {"monitored-entry-points-hit"}
